@@ -411,7 +411,7 @@ func (k *Kernel) handle(r *NLReq) {
 	s := k.sim
 	k.nReq++
 	r.N = k.nReq
-	r.Step = s.stepNo
+	r.Step = s.curStep()
 	r.At = s.since()
 	if r.Op == "" {
 		if err := k.decode(r); err != nil {
@@ -689,7 +689,7 @@ func (k *Kernel) makeReport(key RuleKey, trigger uint32, via string) *KReport {
 	}
 	_, known := k.rules[key]
 	rep := &KReport{
-		N: len(k.reports) + 1, Step: s.stepNo, SEID: key.SEID, URRID: uint32(key.ID), Trigger: trigger, Via: via, Known: known,
+		N: len(k.reports) + 1, Step: s.curStep(), SEID: key.SEID, URRID: uint32(key.ID), Trigger: trigger, Via: via, Known: known,
 		Start: time.Unix(int64(86400*366+h("st")%(64*365*86400)), int64(h("stn")%1e9)),
 		Vol:   [6]uint64{big("t"), big("u"), big("d"), big("tp"), big("up"), big("dp")},
 	}
